@@ -234,48 +234,85 @@ func run(id, tier string) (code int) {
 		merged = append(merged, res.st)
 	}
 
-	// 2. the generated search
-	for _, u := range prop.Units {
-		if u.ThoroughOnly && tier != "thorough" {
-			continue
-		}
-		if u.Pending && os.Getenv("VERIF_PENDING") != "1" {
-			continue
-		}
-		if only := os.Getenv("VERIF_UNITS"); only != "" && !strings.Contains(","+only+",", ","+u.Name+",") {
-			continue // development aid: run a subset of a property's units (evidence then goes to VERIF_EVIDENCE_DIR)
-		}
-		workers := u.Workers[tierIdx(tier)]
-		if workers < 1 {
-			workers = 1
-		}
-		var wg sync.WaitGroup
-		results := make([]unitResult, workers)
-		for w := 0; w < workers; w++ {
-			wg.Add(1)
-			go func(w int) {
-				defer wg.Done()
-				results[w] = rc.runUnit(u, w, nil)
-			}(w)
-		}
-		wg.Wait()
-		for w, res := range results {
-			merged = append(merged, res.st)
-			if len(res.st.Infra) > 0 {
-				infra = append(infra, res.st.Infra...)
+	// 2. the generated search. One round runs every unit with its workers; a
+	// further round (same cases counts, worker seeds that no earlier round
+	// used) is added only while a run without violations and infrastructure
+	// problems has produced fewer than two distinct non-trivial cases or no
+	// sample: more exploration, never less, and the evidence says so.
+	searchRound := func(round int) (ran int) {
+		for _, u := range prop.Units {
+			if u.ThoroughOnly && tier != "thorough" {
+				continue
 			}
-			for _, v := range res.st.Violations {
-				violations = append(violations, v)
+			if u.Pending && os.Getenv("VERIF_PENDING") != "1" {
+				continue
 			}
-			if res.died && len(res.st.Violations) == 0 {
-				infra = append(infra, fmt.Sprintf("%s worker %d ended abnormally (exit %d): %s", u.Name, w, res.exit, res.tail))
+			if only := os.Getenv("VERIF_UNITS"); only != "" && !strings.Contains(","+only+",", ","+u.Name+",") {
+				continue // development aid: run a subset of a property's units (evidence then goes to VERIF_EVIDENCE_DIR)
 			}
-			if !res.died && res.exit != 0 && len(res.st.Violations) == 0 && len(res.st.Infra) == 0 {
-				infra = append(infra, fmt.Sprintf("%s worker %d failed without recording a violation (exit %d): %s", u.Name, w, res.exit, res.tail))
+			if round > 0 && (u.Fixed || u.Fuzz || u.Kind == "fuzz") {
+				continue // enumerations and fuzz campaigns do not change with the worker seed
 			}
-			if res.exit == 0 && res.st.Requested > 0 && res.st.Completed < res.st.Requested {
-				infra = append(infra, fmt.Sprintf("%s worker %d completed %d of %d requested cases", u.Name, w, res.st.Completed, res.st.Requested))
+			workers := u.Workers[tierIdx(tier)]
+			if workers < 1 {
+				workers = 1
 			}
+			ran++
+			var wg sync.WaitGroup
+			results := make([]unitResult, workers)
+			for w := 0; w < workers; w++ {
+				wg.Add(1)
+				go func(w int) {
+					defer wg.Done()
+					results[w] = rc.runUnit(u, round*workers+w, nil)
+				}(w)
+			}
+			wg.Wait()
+			for w, res := range results {
+				merged = append(merged, res.st)
+				if len(res.st.Infra) > 0 {
+					infra = append(infra, res.st.Infra...)
+				}
+				for _, v := range res.st.Violations {
+					violations = append(violations, v)
+				}
+				if res.died && len(res.st.Violations) == 0 {
+					infra = append(infra, fmt.Sprintf("%s worker %d ended abnormally (exit %d): %s", u.Name, w, res.exit, res.tail))
+				}
+				if !res.died && res.exit != 0 && len(res.st.Violations) == 0 && len(res.st.Infra) == 0 {
+					infra = append(infra, fmt.Sprintf("%s worker %d failed without recording a violation (exit %d): %s", u.Name, w, res.exit, res.tail))
+				}
+				if res.exit == 0 && res.st.Requested > 0 && res.st.Completed < res.st.Requested {
+					infra = append(infra, fmt.Sprintf("%s worker %d completed %d of %d requested cases", u.Name, w, res.st.Completed, res.st.Requested))
+				}
+			}
+		}
+		return ran
+	}
+	covered := func() (distinct, samples int) {
+		seen := map[string]bool{}
+		for _, f := range merged {
+			if f == nil {
+				continue
+			}
+			for _, d := range f.Distinct {
+				seen[f.Test+"/"+d] = true
+			}
+			samples += len(f.Samples)
+		}
+		return len(seen), samples
+	}
+	searchRound(0)
+	for round := 1; round <= 3; round++ {
+		d, n := covered()
+		if (d >= 2 && n >= 1) || len(violations) > 0 || len(infra) > 0 {
+			break
+		}
+		note := fmt.Sprintf("round %d of the generated search added: the rounds before it produced %d distinct non-trivial cases and %d samples", round+1, d, n)
+		fmt.Printf("[%s %s] %s\n", id, tier, note)
+		merged = append(merged, &stats.File{Test: "driver", Labels: map[string]int{"additional-search-rounds": 1}, Excluded: map[string]int{}, Notes: []string{note}})
+		if searchRound(round) == 0 {
+			break
 		}
 	}
 
@@ -385,11 +422,16 @@ type unitResult struct {
 	tail string
 }
 
-// rapidSeed derives the worker's rapid seed from VERIF_SEED (never 0).
+// rapidSeed derives the worker's rapid seed from VERIF_SEED (never 0). rapid
+// seeds case i of a run with start+i(i+1)/2, so the starts of two workers (and
+// of two VERIF_SEED values) must lie further apart than any run is long:
+// neighbouring starts would make the workers repeat each other's first cases.
+// With a stride of 2^32 per worker and 2^40 per VERIF_SEED value, runs of up
+// to 92000 cases and 256 workers never share a case seed.
 func rapidSeed(seed int64, w int) int64 {
-	s := 1 + (seed*131 + int64(w))
-	if s <= 0 {
-		s = -s + 1
+	s := (1 + seed<<40 + int64(w)<<32) & (1<<62 - 1)
+	if s == 0 {
+		s = 1
 	}
 	return s
 }
